@@ -44,7 +44,7 @@ const CONTROL_SOURCE: &[FieldSpec] = &[
     rel!("Build-Conflicts-Indep"),
     rel!("Build-Conflicts-Arch"),
     text!("Standards-Version", "4.6.2", "4.7.0"),
-    f!("Homepage", false, ["https://example.com/", "https://example.org/projects/foo"], Normal, Some("not a url")),
+    f!("Homepage", false, ["https://example.com/", "https://example.org/projects/foo", "https://example.com/project/", "https://example.com:8080/a/?q=1#frag"], Normal, Some("not a url")),
     text!("Section", "libs", "non-free/devel"),
     f!("Priority", false, ["optional", "required", "extra"], Normal, Some("superfluous")),
     text!("Maintainer", "Joe Bloggs <joe@example.com>", "Debian QA Group <packages@qa.debian.org>"),
